@@ -655,6 +655,15 @@ func writeEvidence(prop, tier string, seed int, all []*Obligation, keys []string
 			lemmas = append(lemmas, o.Name+": "+o.Res.Answer+" ("+o.Res.Solver+")")
 		}
 	}
+	if evidenceSpecs != nil {
+		// axioms and global facts of the specification files are assumed in every function
+		for _, a := range evidenceSpecs.Axioms {
+			assumptions = append(assumptions, "axiom ("+filepath.Base(a.Src)+"): "+a.Text)
+		}
+		for _, g := range evidenceSpecs.Globals {
+			assumptions = append(assumptions, "global fact ("+filepath.Base(g.Src)+"): "+g.Text)
+		}
+	}
 	sort.Strings(trusted)
 	sort.Strings(assumptions)
 	trusted = append(trusted, "go/ssa (x/tools v0.29.0) translation of the Go source", "SMT solvers z3 4.8.12, z3 5.1.0, cvc5 1.0.x", "govc VC generator (this framework)")
